@@ -130,6 +130,18 @@ var orderSpecs = []orderSpec{
 		calls: map[string]argMode{"x.Cap": noArgs, "b.bp.Put": allArgs, "x.Reset": noArgs},
 	},
 	{
+		// C12: the in-flight store is handed out oldest first — the comparator of the sort is part of the list (a
+		// return without a call is rendered as written), as is the filter of the deferred records
+		fn: "mqtt.(*Inflight).getAll", def: "inflightGetAllOrder",
+		calls:  map[string]argMode{"sort.Slice": noArgs},
+		assign: []string{"m"},
+	},
+	{
+		fn: "mqtt.(*Inflight).NextImmediate", def: "inflightNextImmediateOrder",
+		calls:  map[string]argMode{"i.getAll": allArgs, "i.GetAll": allArgs, "i.RLock": noArgs, "i.RUnlock": noArgs},
+		assign: []string{"m"},
+	},
+	{
 		fn: "mqtt.(*Client).WriteLoop", def: "writeLoopOrder",
 		calls: map[string]argMode{
 			"cl.WritePacket": allArgs, "cl.Lock": noArgs, "cl.Unlock": noArgs, "cl.flushOutbuf": noArgs, "atomic.AddInt32": allArgs,
